@@ -155,19 +155,8 @@ func halfPipe(src net.Conn, dst net.Conn,
 	buf := make([]byte, 32*1024)
 	for {
 		nr, er := src.Read(buf)
-		if er != nil {
-			if nr > len(buf) {
-				log.Errorf("unexpected read len error - up:%t (%dB): %s", isUpload, nr, er)
-			}
-			if e := generalizeErr(er); e != nil {
-				if isUpload {
-					stats.ClientConnErr = e.Error()
-				} else {
-					stats.CovertConnErr = e.Error()
-				}
-			}
-			break
-		}
+		// A Read may return n > 0 bytes together with an error (e.g. io.EOF): forward those bytes before
+		// acting on the error, otherwise the end of the stream is lost.
 		if nr > 0 {
 			if nr > len(buf) && er == nil {
 				log.Errorf("unexpected read len error - up:%t (%dB)", isUpload, nr)
@@ -199,6 +188,19 @@ func halfPipe(src net.Conn, dst net.Conn,
 				break
 			}
 
+		}
+		if er != nil {
+			if nr > len(buf) {
+				log.Errorf("unexpected read len error - up:%t (%dB): %s", isUpload, nr, er)
+			}
+			if e := generalizeErr(er); e != nil {
+				if isUpload {
+					stats.ClientConnErr = e.Error()
+				} else {
+					stats.CovertConnErr = e.Error()
+				}
+			}
+			break
 		}
 
 		// refresh stall timeout - set both because it only happens on write so if connection is
